@@ -31,6 +31,8 @@ import (
 //	    registered service in registration order: n nil, e error, p panic; "-" = none.
 //	    Output: "blocked" | "ret status=<s> calls=<i,j,…>".
 //
+//	C18.fine <ros> <steps> <reps>   statement-level scripts, see c18fine.go
+//
 //	C18.rw <ros> <schedule> <events> <reps>
 //	    ros: RefreshOnShutdown 0/1.  schedule: answers of successive UntilNext calls, <d> or
 //	    <d>! (the timer made for it is ready at once); default 1.  events: t = the pending
@@ -949,6 +951,13 @@ func evalC18(c string) Result {
 			}
 		}
 		return evalC18RW(f[1] == "1", parseC18Sched(f[2]), evs, atoi(f[4]))
+	case "C18.fine":
+		var steps []string
+		if f[2] != "-" {
+			steps = strings.Split(f[2], ",")
+		}
+		c18fCheckSteps(steps)
+		return evalC18Fine(f[1] == "1", steps, atoi(f[3]))
 	}
 	panic("bad op " + f[0])
 }
@@ -1118,6 +1127,10 @@ func genC18(rng *rand.Rand, tier string) (cases []string) {
 			cases = append(cases, genC18RW(rng, tier))
 		}
 	}
+	// statement-level scripts (harness/c18fine.go)
+	for i := 0; i < n/2; i++ {
+		cases = append(cases, genC18Fine(rng, tier))
+	}
 	return cases
 }
 
@@ -1189,6 +1202,8 @@ func candsC18(c string) (res []string) {
 		if f[1] == "1" {
 			rebuild(1, "0")
 		}
+	case "C18.fine":
+		res = candsC18Fine(f)
 	}
 	sort.SliceStable(res, func(i, j int) bool { return len(res[i]) < len(res[j]) })
 	return res
